@@ -24,7 +24,7 @@ type GUser struct {
 
 // PreID is an identity the agent holds before the first run.
 type PreID struct {
-	Kind    string `json:"kind"` // plain | cert
+	Kind    string `json:"kind"` // plain | cert | ysshcert (a certificate with a well-formed YSSHCA KeyID from elsewhere)
 	Label   string `json:"label"`
 	Comment string `json:"comment"`
 }
@@ -54,6 +54,7 @@ type GRun struct {
 	StubPanic string               `json:"stub_panic,omitempty"` // Name|Generate|CSRs|AddCertsToAgent of the selected stub
 	StubCSRs  int                  `json:"stub_csrs"`            // CSRs per agent key of stub handlers
 	StubKeys  int                  `json:"stub_keys,omitempty"`  // agent keys returned by a stub handler (0 means 1)
+	StubAddFail int                `json:"stub_add_fail,omitempty"` // 1-based index of the stub agent key whose AddCertsToAgent fails (0: none)
 	SSHVer    string               `json:"ssh_ver,omitempty"`    // client-declared SSH version ("" means 8.1)
 	AdvanceS  int64                `json:"advance_s"`
 	// further client claims carried by the command text: none of them may influence the signing request
@@ -90,9 +91,11 @@ type Placement struct {
 var agentBehaviours = []string{"honest", "otherkey", "otherdata", "replay", "emptysig", "garbagesig", "fail", "close", "wrongformat"}
 
 var oddNames = []string{"alice", "bob", "we\"ird", "üser-ñ", "a b", "x{y}", "back\\slash", "tab\tname", "carol.smith", "root", "日本",
-	"lit\\u003cesc", "a<b>&c", "amp\\u0026x", "nl\\nname", "sep\u2028x", "per%cent%s", "x\\\\y", "q'uote"}
+	"lit\\u003cesc", "a<b>&c", "amp\\u0026x", "nl\\nname", "sep\u2028x", "per%cent%s", "x\\\\y", "q'uote",
+	"dot.", "UPPER", "a-rather-long-user-name-that-goes-on-and-on-0123456789"}
 var oddHosts = []string{"host.example.com", "h\"q", "ホスト", "a b c", "{\"x\":1}", "laptop-01", "x,y", "null",
-	"h\\u003e.example", "<host>&co", "a\\u0026b", "bs\\", "\\\"", "ctl\x01x", "tab\there", "h\\u0000x", "%s%d"}
+	"h\\u003e.example", "<host>&co", "a\\u0026b", "bs\\", "\\\"", "ctl\x01x", "tab\there", "h\\u0000x", "%s%d",
+	"host.example.com.", "HOST.Example.COM", " lead.example.com", "trail.example.com ", "a-very-long-cloud-instance-name-0123456789abcdef.eu-central-1.compute.internal.example.com", "[::1]", "host:22"}
 var oddIPs = []string{"1.2.3.4", "10.0.0.254", "::1", "2001:db8::17", "192.168.223.229", "fe80::1"}
 var algoSpellings = map[int][]string{
 	0: {"default", "Default", "DEFAULT", "unknown", "0"},
@@ -201,7 +204,10 @@ func genRun(r *sim.Rng, p *GPlan, faulty bool, odd bool) GRun {
 			run.Handlers = append(run.Handlers, pick(r, []string{"regular", "stub:ok", "stub:fail", "stub:fail", "stub:panic"}))
 		}
 		run.StubCSRs = r.Range(0, 3)
-		run.StubKeys = r.Range(1, 2)
+		run.StubKeys = r.Range(1, 3)
+		if r.Bool(0.2) {
+			run.StubAddFail = r.Range(1, run.StubKeys)
+		}
 	}
 	if r.Bool(0.2) {
 		run.SSHVer = pick(r, []string{"7.4", "9.9", "6.6", "10.0", "65535.65535"})
@@ -253,7 +259,7 @@ func genWorld(r *sim.Rng, odd bool, faultRate float64, maxRuns int) *GPlan {
 		if c == "paranoids.regular.not" {
 			c = "some other comment"
 		}
-		p.PreIDs = append(p.PreIDs, PreID{Kind: pick(r, []string{"plain", "cert"}), Label: fmt.Sprintf("pre%d", i), Comment: c})
+		p.PreIDs = append(p.PreIDs, PreID{Kind: pick(r, []string{"plain", "cert", "ysshcert"}), Label: fmt.Sprintf("pre%d", i), Comment: c})
 	}
 	n := r.Range(1, maxRuns)
 	for i := 0; i < n; i++ {
